@@ -20,7 +20,8 @@ RULE = ('network packets (valid and mutated Interest/Data on names that hit / ne
         'x all subsets of optional envelope headers (incl. unknown critical / non-critical numbers) delivered to twin apps; '
         'Nack reasons 0,50,100,150,255,256,65535,2^32,2^64-1,random over several pending Interests; PIT tokens of length '
         '0..40 over 2-6 Interests answered in random order, some late; fragmented envelopes; distinct = (sub-check, '
-        'front-end, packet kind, header set / reason / token length); non-trivial = every case')
+        'front-end, packet kind, header set / reason / token length); non-trivial = every case'
+        '; Nack envelopes with and without a PIT token while a handler covers the nacked names')
 
 C = lambda s: rc.comp(8, s)   # noqa
 OPT_HEADERS = [(0x32c, rc.enc_nni(256)), (0x330, b'\x07'), (0x334, rc.enc_tlv(0x335, b'\x01')), (0x340, b'\x01'),
